@@ -48,7 +48,7 @@ EXTRA = ["region", "code", "grp", "lvl", "zone"]
 def make_form(rng, i):
     f = Form()
     nl = rng.randint(0, 5)
-    lists = [f"{rng.choice(['l', 'lst', 'opts', 'c'])}{k}" for k in range(nl)]
+    lists = [f"{rng.choice(['l', 'lst', 'opts', 'c', 'fruits.v', 'sizes.20', 'a-b.c'])}{k}" for k in range(nl)]  # a dot in a list name does not make it a file
     if nl >= 2 and rng.random() < 0.2:
         lists[1] = lists[0].upper() if rng.random() < 0.5 else lists[0].capitalize()  # two lists whose names differ only by case are two lists
         if lists[1] == lists[0]:
@@ -171,6 +171,8 @@ def make_form(rng, i):
             if rng.random() < 0.5:
                 c["zone"] = f"xz.{k}"
             f.external_choices.append(c)
+        if rng.random() < 0.5:
+            f.meta["dict_key_order"] = rng.randrange(1, 10**6)
     return f
 
 
@@ -223,7 +225,20 @@ NODESET = re.compile(r"^(randomize\()?\s*instance\('([^']*)'\)/root/item(\[(.*)\
 
 def check(ctx, form, sig, sample=False):
     sheets = to_sheets(form)
-    o = drive.convert_sheets(sheets, args=form.args)
+    if form.external_choices and form.meta.get("dict_key_order"):
+        # a dict workbook whose row dicts list their keys in another order than the header row (an API caller builds rows as it likes)
+        import random as _r
+        wb = render.to_dict(sheets)
+        rr = _r.Random(form.meta["dict_key_order"])
+        for row in wb["external_choices"]:
+            items = list(row.items())
+            rr.shuffle(items)
+            row.clear()
+            row.update(items)
+        ctx.ctr("dict_rows_in_other_key_order")
+        o = drive.call_convert(wb, **form.args)
+    else:
+        o = drive.convert_sheets(sheets, args=form.args)
     wit = lambda **kw: common.witness(form, sheets_md=common.sheets_to_md(sheets)[:3000], **kw)  # noqa: E731
     rm = refmodel.RM(form)
     # -- expected rejections: instance id clashes with different URIs
